@@ -54,6 +54,9 @@ STATIC_SAMPLES = {
     "django_argon2": [
         "argon2$argon2i$v=19$m=512,t=2,p=2$c29tZXNhbHQ$SqlVijFGiPG+935vDSGEsA",
         "argon2$argon2id$v=19$m=65536,t=3,p=4$c29tZXNhbHQ$GpZ3sK/oH9p7VIiV56G/64Zo/8GaUw434IimaPqxwCo",
+        # every type variant the scheme can make (using(type='D')), and the version-less (v=0x10) form
+        "argon2$argon2d$v=19$m=512,t=2,p=2$c29tZXNhbHQ$SqlVijFGiPG+935vDSGEsA",
+        "argon2$argon2i$m=512,t=2,p=2$c29tZXNhbHQ$SqlVijFGiPG+935vDSGEsA",
     ],
 }
 
@@ -200,9 +203,15 @@ def judge(cname, name, h, p, ck, settings, wrongs=True):
     if ok is not True:
         out.append((f"C17|{cname}|verify:{name}:own_password_rejected", f"{cname}.verify({p!r}, {h!r}) = {ok!r} for the password the hash was made from"))
     if wrongs:
-        for label, q in (("hash_text", hs), ("appended", p + "x"), ("empty", "")):
+        for label, q in (("hash_text", hs), ("appended", p + (b"x" if isinstance(p, bytes) else "x")), ("empty", "")):
             if q == p or HS.equiv(name, p, q, ck, settings or {}):
                 continue
+            enc = (ck or {}).get("encoding") or "utf-8"
+            try:
+                if (q.encode(enc) if isinstance(q, str) else q) == (p.encode(enc) if isinstance(p, str) else p):
+                    continue  # the same password in its other representation (text <-> encoded bytes)
+            except UnicodeError:
+                pass
             if not HS.admissible(name, q, ck):
                 continue
             try:
@@ -517,8 +526,15 @@ def work_scheme(task):
     name = task["scheme"]
     for si, kw in task["settings"]:
         for ci, ck in enumerate(task["ctxkws"]):
-            for pi, p in enumerate(PASSWORDS):
-                if not HS.admissible(name, p, ck):
+            pws = list(PASSWORDS)
+            if ck.get("encoding"):
+                # the same password handed over as BYTES in the encoding the keyword names (how a file reader would)
+                try:
+                    pws.append("pä-ßö17".encode(ck["encoding"]))
+                except UnicodeEncodeError:
+                    pass
+            for pi, p in enumerate(pws):
+                if not (isinstance(p, bytes) and ck.get("encoding")) and not HS.admissible(name, p, ck):
                     acc.count("inadmissible_password")
                     continue
                 base = {"part": "ctx", "scheme": name, "settings": kw, "ctxkw": ck, "password": p, "via": "handler", "seed": task["seed"]}
